@@ -55,6 +55,7 @@ pub fn prop() -> HistProp {
         },
         extra: Some((4, |_| release_scenario_strategy(cfg_strategy()))),
         many_batches: 2,
+        zero_arrival: 1,
     }
 }
 
